@@ -4,7 +4,7 @@ expiry wheel runs on a fake ticker and whose expiry jitter is scripted (one draw
 Case = {"kind":"cache","expire":ns,"limit":n,"phase":ticks before the first call,"calls":[...]};
 observation per call = {found,val,err,fetched,jit (the jittered duration of this call's draw),keys}.
 """
-from vlib import cZ, cnat, cbool, clist, copt
+from vlib import cZ, cnat, cbool, clist, copt, run_driver
 
 ID = "C17"
 GO_PKG = "./lib/collection"
@@ -19,7 +19,11 @@ GEN_SPEC = {"items": [
     {"kind": "calls", "file": "lib/collection/cache.go", "func": "keyLru.add", "as": "lru_add_calls"},
     {"kind": "calls", "file": "lib/collection/cache.go", "func": "keyLru.removeElement", "as": "lru_removeElement_calls"},
     {"kind": "calls", "file": "lib/collection/cache.go", "func": "NewCache", "as": "new_calls"},
+    {"kind": "calls", "file": "lib/collection/cache.go", "func": "keyLru.remove", "as": "lru_remove_calls"},
+    {"kind": "calls", "file": "rpc/internal/auth/auth.go", "func": "Authenticator.validate", "as": "auth_validate_calls"},
+    {"kind": "calls", "file": "lib/mathx/unstable.go", "func": "Unstable.AroundDuration", "as": "around_calls"},
 ]}
+AUTH_PKG = "./rpc/internal/auth"
 QUICK_N = 300
 THOROUGH_N = 5000
 SEARCH_N = 300
@@ -28,10 +32,17 @@ DRIVER_TIMEOUT = 1500
 RULE = ("one cache per case: limit in {0 (none),1,2,3}, default expiry in {2,3,5,10,19,20,21,60,100,299,300,301,400 s, "
         "2.5 s}, wheel phase 0..299 (ticks before the first call), 4-5 keys, 10-40 calls Set/SetWithExpire/Get/Del/Take "
         "(fetch ok or failing) interleaved with tick bursts around 0.95e, e and 1.05e, scripted jitter draws in "
-        "{0, 2^62, 2^63-2048, random}; plus a malformed stream (expiry <= 0, expiry around one second, limit < 0); "
+        "{0, 2^62, 2^63-2048, random}; a re-insertion stream (fill to the limit, Del or let expire, Set/Take the same key "
+        "again, then overflow with new keys); a jitter stream (kind jitter: AroundDuration/AroundInt with the cache's "
+        "deviation for base durations 1 ms .. 10 years incl. 1 h, 3 h, 6 h, 1 d, 30 d, 1 y and 16 scripted draws each); an "
+        "authenticator stream (kind auth, rpc/internal/auth on miniredis: set/del tokens, store outages of at most 4 "
+        "failing lookups, calls with right and wrong tokens, strict and non-strict); thorough tier only: end-to-end "
+        "cases with expiries 1 h, 3 h, 6 h stepped tick by tick; plus a malformed stream (expiry <= 0, expiry around one second, limit < 0); "
         "non-trivial = an entry was seen to expire and (for limit > 0) an entry was evicted or a key was re-set; "
         "distinct = distinct canonical case JSON")
-TRUSTED = ["C10 wheel model for the expiry timers (C10 theorems, C10 correspondence)",
+TRUSTED = ["miniredis as the token store and its Close/Restart as the outage (auth stream); the store's circuit breaker "
+           "does not trip (at most 4 failing lookups per case, below its protection threshold)",
+           "C10 wheel model for the expiry timers (C10 theorems, C10 correspondence)",
            "mathx.Unstable.AroundDuration: the jittered duration of every call is recomputed by the driver from the "
            "scripted draw and handed to the model as an input",
            "Go map / container/list semantics (data as association list, LRU as a list of keys)",
@@ -94,8 +105,136 @@ def _case(rng, malformed):
     return {"kind": "cache", "expire": exp, "limit": limit, "phase": phase, "calls": calls}
 
 
+def _reinsert(rng):
+    """fill to the limit, remove a key (Del or expiry), put the same key back (Set or Take), then overflow"""
+    limit = rng.choice([1, 2, 3])
+    e = rng.choice([3, 5, 10])
+    calls = []
+    keys = KEYS[:limit]
+    for k in keys:
+        calls.append({"op": "set", "key": k, "val": rng.randrange(100), "draw": _draw(rng)})
+    victim = rng.choice(keys)
+    how = rng.random()
+    if how < 0.5:
+        calls.append({"op": "del", "key": victim})
+    elif how < 0.8:
+        calls.extend({"op": "tick"} for _ in range(e * 105 // 100 + 1))   # everything expires
+    else:
+        calls.append({"op": "setx", "key": victim, "val": 1, "expire": 2 * S, "draw": _draw(rng)})
+        calls.extend({"op": "tick"} for _ in range(3))
+    for _ in range(rng.randint(1, 2)):
+        if rng.random() < 0.6:
+            calls.append({"op": "set", "key": victim, "val": rng.randrange(100), "draw": _draw(rng)})
+        else:
+            calls.append({"op": "take", "key": victim, "val": rng.randrange(100), "fail": rng.random() < 0.2, "draw": _draw(rng)})
+        if rng.random() < 0.4:
+            calls.append({"op": "del", "key": victim})
+    fresh = [k for k in KEYS + ["k5", "k6", "k7"] if k not in keys]
+    for k in fresh[:rng.randint(limit, limit + 3)]:
+        calls.append({"op": rng.choice(["set", "set", "take"]), "key": k, "val": rng.randrange(100), "fail": False, "draw": _draw(rng)})
+        if rng.random() < 0.4:
+            calls.append({"op": "get", "key": rng.choice(keys + [k])})
+    calls.extend({"op": "tick"} for _ in range(rng.randint(0, e + 2)))
+    return {"kind": "cache", "expire": e * S, "limit": limit, "phase": rng.randrange(300), "calls": calls}
+
+
+H = 3600 * S
+BASES = [10 ** 6, S, 60 * S, H, 3 * H, 6 * H, 24 * H, 30 * 24 * H, 365 * 24 * H, 10 * 365 * 24 * H]
+
+
+def _jitter(rng):
+    base = rng.choice(BASES) if rng.random() < 0.8 else rng.randrange(1, 10 * 365 * 24 * H)
+    draws = [0, 2 ** 63 - 2048, 2 ** 62] + [rng.randrange(0, 2 ** 63 - 2048) for _ in range(13)]
+    return {"kind": "jitter", "base": base, "draws": draws}
+
+
+def _auth(rng):
+    strict = rng.random() < 0.35
+    apps = ["a0", "a1", "a2"]
+    toks = ["t0", "t1", "t2", "t3"]
+    ops = []
+    store = {}
+    up = True
+    fails = 0
+    for a in apps[:rng.randint(1, 3)]:
+        store[a] = rng.choice(toks)
+        ops.append({"op": "set", "app": a, "token": store[a]})
+    for _ in range(rng.randint(6, 16)):
+        r = rng.random()
+        if r < 0.15:
+            ops.append({"op": "down" if up else "up"})
+            up = not up
+        elif r < 0.25:
+            a = rng.choice(apps)
+            store[a] = rng.choice(toks)
+            ops.append({"op": "set", "app": a, "token": store[a]})
+        elif r < 0.3:
+            a = rng.choice(apps)
+            store.pop(a, None)
+            ops.append({"op": "del", "app": a})
+        else:
+            a = rng.choice(apps)
+            if not up:
+                if fails >= 4:      # keep the store's breaker closed
+                    ops.append({"op": "up"})
+                    up = True
+                else:
+                    fails += 1      # upper bound: a cached app does not reach the store
+            t = store.get(a, "t0") if rng.random() < 0.5 else rng.choice(toks)
+            ops.append({"op": "call", "app": a, "token": t})
+    if not up:
+        ops.append({"op": "up"})
+    for a in apps:   # after recovery the real token is required again
+        ops.append({"op": "call", "app": a, "token": "t3"})
+        ops.append({"op": "call", "app": a, "token": store.get(a, "t0")})
+    return {"kind": "auth", "strict": strict, "ops": ops}
+
+
+def _long(rng, hours):
+    e = hours * H
+    calls = [{"op": "set", "key": "k0", "val": 1, "draw": _draw(rng)}, {"op": "set", "key": "k1", "val": 2, "draw": 0},
+             {"op": "set", "key": "k2", "val": 3, "draw": 2 ** 63 - 2048}]
+    calls.extend({"op": "tick"} for _ in range(hours * 3600 * 106 // 100 + 2))
+    return {"kind": "cache", "expire": e, "limit": 0, "phase": rng.randrange(300), "calls": calls}
+
+
 def generate(rng, tier, n):
-    return [_case(rng, rng.random() < 0.15 and tier != "search") for _ in range(n)]
+    cases = []
+    if tier == "thorough":
+        cases += [_long(rng, 1), _long(rng, 3), _long(rng, 6)]
+    nj = max(10, n // 12)
+    na = max(10, n // 12)
+    cases += [_jitter(rng) for _ in range(nj)]
+    cases += [_auth(rng) for _ in range(na)]
+    while len(cases) < n:
+        if rng.random() < 0.2:
+            cases.append(_reinsert(rng))
+        else:
+            cases.append(_case(rng, rng.random() < 0.15 and tier != "search"))
+    return cases
+
+
+def drive(cases, tier):
+    """cache and jitter cases run in lib/collection, authenticator cases in rpc/internal/auth"""
+    ia = [i for i, c in enumerate(cases) if c.get("kind") == "auth"]
+    ic = [i for i, c in enumerate(cases) if c.get("kind") != "auth"]
+    obs = [None] * len(cases)
+    log = ""
+    if ic:
+        o, l = run_driver(GO_PKG, [cases[i] for i in ic], name="C17" + tier[0], timeout=DRIVER_TIMEOUT)
+        log += l
+        if o is None:
+            return None, log
+        for i, x in zip(ic, o):
+            obs[i] = x
+    if ia:
+        o, l = run_driver(AUTH_PKG, [cases[i] for i in ia], name="C17a" + tier[0], timeout=DRIVER_TIMEOUT, run="^TestVerifDriverC17$")
+        log += l
+        if o is None:
+            return None, log
+        for i, x in zip(ia, o):
+            obs[i] = x
+    return obs, log
 
 
 def search(rng, problems):
@@ -117,7 +256,31 @@ def _k(s):
     return cnat(int(s[1:]))
 
 
+def _n(s):
+    return cnat(int(s[1:]))
+
+
 def encode(case, obs):
+    kind = case.get("kind")
+    if kind == "jitter":
+        return "CJ (mkj %s %s %s %s)" % (cZ(case["base"]), clist([cZ(d) for d in case["draws"]]),
+                                         clist([cZ(d) for d in obs.get("durs", [])]), clist([cZ(d) for d in obs.get("ints", [])]))
+    if kind == "auth":
+        ops = []
+        for o in case["ops"]:
+            k = o["op"]
+            if k == "set":
+                ops.append("ASet %s %s" % (_n(o["app"]), _n(o["token"])))
+            elif k == "del":
+                ops.append("ADel %s" % _n(o["app"]))
+            elif k == "down":
+                ops.append("ADown")
+            elif k == "up":
+                ops.append("AUp")
+            else:
+                ops.append("ACall %s %s" % (_n(o["app"]), _n(o["token"])))
+        codes = [cnat(c if c >= 0 else 99) for c in obs.get("codes", [])]
+        return "CA (mka %s %s %s)" % (cbool(case["strict"]), clist(ops), clist(codes))
     ops, os_ = [], []
     for c, o in zip(case["calls"], obs.get("obs", [])):
         op = c["op"]
@@ -137,7 +300,7 @@ def encode(case, obs):
                                           clist([_k(k) for k in o["keys"]])))
     if len(os_) != len(case["calls"]):
         os_ = []
-    return "mkcase %s %s %s %s %s" % (cZ(case["expire"]), cZ(case["limit"]), cnat(case["phase"]), clist(ops), clist(os_))
+    return "CC (mkcase %s %s %s %s %s)" % (cZ(case["expire"]), cZ(case["limit"]), cnat(case["phase"]), clist(ops), clist(os_))
 
 
 def _events(case, obs):
@@ -158,14 +321,37 @@ def _events(case, obs):
 
 
 def nontrivial(case, obs):
+    if case.get("kind") == "jitter":
+        return len(obs.get("durs", [])) == len(case["draws"]) and case["base"] >= S
+    if case.get("kind") == "auth":
+        ops = [o["op"] for o in case["ops"]]
+        return "down" in ops and "call" in ops[ops.index("down"):]
     expired, evicted, reset = _events(case, obs)
     return expired and (evicted or reset)
 
 
 def bucket(case, obs):
+    if case.get("kind") == "jitter":
+        b = case["base"]
+        return ["jitter:base<1h" if b < H else "jitter:base<30d" if b < 30 * 24 * H else "jitter:base>=30d"]
+    if case.get("kind") == "auth":
+        out = ["auth:strict" if case["strict"] else "auth:non-strict"]
+        if any(o["op"] == "down" for o in case["ops"]):
+            out.append("auth:outage")
+        out += ["auth:code=%d" % c for c in sorted(set(obs.get("codes", [])))]
+        return out
     out = ["limit=%d" % case["limit"], "expire=%ss" % (case["expire"] // S), "phase=%d" % (case["phase"] // 50 * 50)]
     out += ["op:" + k for k in sorted({c["op"] for c in case["calls"]})]
     expired, evicted, reset = _events(case, obs)
+    removed = set()
+    for c in case["calls"]:
+        if c["op"] == "del":
+            removed.add(c["key"])
+        elif c["op"] in ("set", "setx", "take") and c["key"] in removed:
+            out.append("hist:re-insert-after-del")
+            break
+    if case["expire"] >= H:
+        out.append("hist:long-expiry-end-to-end")
     if expired:
         out.append("obs:expired")
     if evicted:
@@ -184,6 +370,12 @@ def bucket(case, obs):
 
 
 def explain(case, obs):
+    if case.get("kind") == "jitter":
+        return ("AroundDuration/AroundInt returned a value outside [0.95, 1.05] x base (1 microsecond tolerance): the expiry "
+                "jitter is wrong or overflows for this base duration (c17_jitter_window)")
+    if case.get("kind") == "auth":
+        return ("the authenticator answered differently from 'a token is cached only by a successful store lookup': after "
+                "an outage the real token was not required again, or a cached token was not honoured (c17_take_error_not_cached)")
     return ("observed cache behaviour contradicts C17.Exec.spec_ok (reference bounded LRU map with expiry windows): more "
             "entries than the limit, a victim other than the least recently used one, Get/Take returning something else "
             "than the latest value, an entry dropped outside [0.95e,1.05e] after its last Set (whole wheel ticks) or "
